@@ -16,6 +16,7 @@ import (
 	"github.com/gopacket/gopacket"
 
 	"github.com/scionproto/scion/pkg/slayers"
+	"github.com/scionproto/scion/pkg/slayers/path/epic"
 	"github.com/scionproto/scion/pkg/slayers/path/scion"
 	"github.com/scionproto/scion/pkg/spao"
 	"github.com/scionproto/scion/router"
@@ -432,4 +433,113 @@ func (o *SlowObs) ImplTerm() string {
 		return vgen.App("RouterScmp.SReply", o.Reply.Term())
 	}
 	return "RouterScmp.SUnparsable"
+}
+
+// SlowCaseTerm prints the RouterScmp.CSlow case of one slow-path run (ok=false if the request
+// or the packet the fast path left cannot be expressed).
+func SlowCaseTerm(cfgName string, ing rtgen.Ingress, res *router.VerifResult, o *SlowObs) (string, bool) {
+	req, ok := ReqTerm(res)
+	if !ok || o.Left == nil {
+		return "", false
+	}
+	ats := uint64(0)
+	if o.Reply != nil {
+		ats = o.Reply.TS
+	}
+	return "(let l4v := " + o.Reply.L4Term() + " in " + vgen.App("RouterScmp.CSlow", cfgName, ing.Gallina(), req,
+		vgen.N(uint64(res.Egress)), o.Left.Term(), "false", vgen.N(ats), o.Reply.MacTable(), o.ImplTerm()) + ")", true
+}
+
+// Geo is the geometry of an emitted packet as the real slayers decode it.
+type Geo struct {
+	Total, HdrLen, PayLen, PathType, DstType, SrcType int
+	CurrINF, CurrHF                                   int
+	Seg                                               [3]int
+}
+
+// Term prints the RouterTotal.geo term.
+func (g *Geo) Term() string {
+	n := func(v int) string { return vgen.N(uint64(v)) }
+	return vgen.App("RouterTotal.mkGeo", n(g.Total), n(g.HdrLen), n(g.PayLen), n(g.PathType), n(g.DstType),
+		n(g.SrcType), n(g.CurrINF), n(g.CurrHF), n(g.Seg[0]), n(g.Seg[1]), n(g.Seg[2]))
+}
+
+// DecodeGeo decodes out with the real slayers SCION decoder and reports its geometry; err != nil
+// if it does not decode as a SCION packet at all.
+func DecodeGeo(out []byte) (*Geo, error) {
+	var s slayers.SCION
+	s.RecyclePaths()
+	if err := s.DecodeFromBytes(out, gopacket.NilDecodeFeedback); err != nil {
+		return nil, err
+	}
+	g := &Geo{Total: len(out), HdrLen: int(s.HdrLen), PayLen: int(s.PayloadLen), PathType: int(s.PathType),
+		DstType: int(s.DstAddrType), SrcType: int(s.SrcAddrType)}
+	var raw *scion.Raw
+	switch p := s.Path.(type) {
+	case *scion.Raw:
+		raw = p
+	case *epic.Path:
+		raw = p.ScionPath
+	}
+	if raw != nil {
+		g.CurrINF, g.CurrHF = int(raw.PathMeta.CurrINF), int(raw.PathMeta.CurrHF)
+		g.Seg = [3]int{int(raw.PathMeta.SegLen[0]), int(raw.PathMeta.SegLen[1]), int(raw.PathMeta.SegLen[2])}
+	}
+	return g, nil
+}
+
+// Consistent is the Go-side copy of RouterTotal.geo_ok (used to report a violation directly,
+// with the input as replay, also for inputs that are not shipped to Coq).
+func (g *Geo) Consistent() error {
+	ni, nh := 0, g.Seg[0]+g.Seg[1]+g.Seg[2]
+	switch {
+	case g.Seg[2] > 0:
+		ni = 3
+	case g.Seg[1] > 0:
+		ni = 2
+	case g.Seg[0] > 0:
+		ni = 1
+	}
+	sc := 4 + 8*ni + 12*nh
+	var pl int
+	switch g.PathType {
+	case 0:
+		pl = 0
+	case 1:
+		pl = sc
+	case 2:
+		pl = 32
+	case 3:
+		pl = 16 + sc
+	default:
+		return fmt.Errorf("path type %d", g.PathType)
+	}
+	need := 12 + 16 + 4*(1+g.DstType&3) + 4*(1+g.SrcType&3) + pl
+	if need > 4*g.HdrLen {
+		return fmt.Errorf("HdrLen %d (x4) does not cover the %d header bytes", g.HdrLen, need)
+	}
+	if 4*g.HdrLen+g.PayLen != g.Total {
+		return fmt.Errorf("4*HdrLen + PayloadLen = %d, packet has %d bytes", 4*g.HdrLen+g.PayLen, g.Total)
+	}
+	if g.PathType == 1 || g.PathType == 3 {
+		if g.Seg[2] > 0 && (g.Seg[1] == 0 || g.Seg[0] == 0) || g.Seg[2] == 0 && g.Seg[1] > 0 && g.Seg[0] == 0 {
+			return fmt.Errorf("segment lengths %v", g.Seg)
+		}
+		if nh > 64 {
+			return fmt.Errorf("%d hop fields", nh)
+		}
+		if g.CurrHF >= nh {
+			return fmt.Errorf("CurrHF %d outside the path of %d hops", g.CurrHF, nh)
+		}
+		want := 2
+		if g.CurrHF < g.Seg[0] {
+			want = 0
+		} else if g.CurrHF < g.Seg[0]+g.Seg[1] {
+			want = 1
+		}
+		if g.CurrINF != want {
+			return fmt.Errorf("CurrINF %d does not match CurrHF %d (segments %v)", g.CurrINF, g.CurrHF, g.Seg)
+		}
+	}
+	return nil
 }
